@@ -13,6 +13,7 @@ import (
 type Env struct {
 	x             *Exec
 	vars          map[string]Val
+	ghostVars     map[string]string // variables holding ghost arrays: name -> SMT sort
 	st, old       *State
 	reach         string
 	imports       map[string]string
@@ -220,6 +221,9 @@ func (env *Env) evalRV(e Expr) (SVal, error) {
 func (env *Env) ident(name string) (SVal, error) {
 	x := env.x
 	if v, ok := env.vars[name]; ok {
+		if gs, isG := env.ghostVars[name]; isG {
+			return SVal{Val: v, ghostSort: gs}, nil
+		}
 		return SVal{Val: v}, nil
 	}
 	if g, ok := x.eng.CS.Ghosts[name]; ok {
@@ -837,6 +841,15 @@ func (env *Env) callSpec(e *ECall) (SVal, error) {
 		}
 		a := env.st.Get(x.mvName(mt, ls[0].Path), "(Array Int (Array "+ks+" "+ls[0].Sort+"))")
 		return SVal{Val: Val{L: []string{Select(a, v.L[0])}}, ghostSort: "(Array " + ks + " " + ls[0].Sort + ")"}, nil
+	case "arrOf":
+		v, err := env.evalRV(e.Args[0])
+		if err != nil {
+			return SVal{}, err
+		}
+		if len(v.L) != 3 {
+			return SVal{}, fmt.Errorf("arrOf wants a slice")
+		}
+		return intV(v.L[0]), nil
 	case "typeTag":
 		v, err := env.evalRV(e.Args[0])
 		if err != nil {
@@ -911,6 +924,12 @@ func (env *Env) callSpec(e *ECall) (SVal, error) {
 	n := &Env{x: x, vars: map[string]Val{}, st: env.st, old: env.old, reach: env.reach, imports: sf.Imports, pkgPath: sf.PkgPath, allocPre: env.allocPre, depth: env.depth + 1}
 	for i, p := range sf.Params {
 		n.vars[p.Name] = args[i].Val
+		if args[i].ghostSort != "" {
+			if n.ghostVars == nil {
+				n.ghostVars = map[string]string{}
+			}
+			n.ghostVars[p.Name] = args[i].ghostSort
+		}
 	}
 	v, err := n.evalRV(sf.Body)
 	if err != nil {
